@@ -240,6 +240,10 @@ func c17RandName(r *rand.Rand) string {
 }
 
 func c17RandEnvFile(r *rand.Rand, name string, malformed bool) c17EnvFile {
+	if r.Intn(6) == 0 {
+		t := c17FreeFormEnv(r, malformed)
+		return c17EnvFile{N: name, Text: &t}
+	}
 	f := c17EnvFile{N: name, Lines: [][2]string{}}
 	for i, n := 0, r.Intn(5); i < n; i++ {
 		v := pick(r, c17EnvValues)
@@ -475,6 +479,7 @@ func runC17(ctx *core.Ctx) {
 	// 1. exhaustive lattices of the property
 	c17Lattice(ctx)
 	c17WorkdirLattice(ctx)
+	c17ConfigLattice(ctx)
 	ctx.Res.Exhaustive = true
 
 	// 2. seeded random worlds: documented order (spec oracle applies), then any order (model correspondence + invariants)
@@ -485,6 +490,10 @@ func runC17(ctx *core.Ctx) {
 	for i := 0; i < ctx.Pick(4000, 100000); i++ {
 		ctx.Count("random-any-order")
 		ctx.Add("c17load", c17Random(ctx.Rng, false, false).wire())
+	}
+	for i := 0; i < ctx.Pick(3000, 80000); i++ {
+		ctx.Count("random-config-selection")
+		ctx.Add("c17load", c17RandomCfg(ctx.Rng, i%2 == 0))
 	}
 	// 3. malformed stream
 	for i := 0; i < ctx.Pick(2500, 50000); i++ {
